@@ -3,6 +3,7 @@
 //! The same case lines are fed to the extracted Coq model (extract/modelrun.ml).
 use std::io::{BufRead, Write};
 
+mod c02;
 mod c08;
 pub mod util;
 
@@ -38,6 +39,7 @@ fn run_lines() {
         let res = std::panic::catch_unwind(std::panic::AssertUnwindSafe(|| match kind.as_str() {
             "chunks" => c08::chunks(&mut t),
             "range" => c08::range(&mut t),
+            "book" => c02::book(&mut t),
             _ => format!("ERR unknown-kind {kind}"),
         }));
         match res {
